@@ -7,6 +7,8 @@ From Coq Require Import ZArith String Ascii List Bool.
 Require Import DS.Model.PyStr DS.Gen.GenNorm DS.Model.GC DS.Proofs.GCNormProofs DS.Proofs.GCProofs DS.Proofs.GCFaultProofs.
 Require Import DS.Model.GCPointer DS.Proofs.GCPointerProofs DS.Proofs.PyStrProofs DS.Model.GCHist DS.Proofs.GCHistProofs.
 Require Import DS.Model.Doc DS.Gen.GenDoc DS.Model.GCDoc DS.Proofs.GCDocProofs.
+Require Import DS.Gen.GenGCMarker DS.Proofs.GCMarkerGenProofs.
+Require Import DS.Gen.GenLocalList DS.Model.LocalList DS.Proofs.LocalListProofs.
 Import ListNotations.
 Open Scope string_scope.
 Open Scope Z_scope.
@@ -430,3 +432,99 @@ Proof.
   split; [exists "metadata/manifests/l2.avro"; repeat split; simpl; auto|].
   vm_compute. reflexivity.
 Qed.
+
+(* ---- a marker that cannot be stat'ed.  The per-marker decision kernel of _load_inflight_protection is REGENERATED from the
+   source (translator/gen_gcmarker.py -> Gen/GenGCMarker.v: age_ok as a function of the stat's answer -- None = it raised, any
+   exception class --, whether the marker is deleted, whether its targets are protected); the translator refuses a loader
+   whose markers are not the result of storage.list_files itself (a listing helper that stats or filters entries decides on
+   its own which markers the collector sees), whose handlers are narrower than `Exception`, or that calls any other storage
+   operation.
+
+   For every cutoff, and whichever way a delete would go: a marker whose stat RAISES counts as fresh, is not deleted, and
+   its targets are protected. *)
+Theorem C07_marker_stat_failure_protects : forall (cutoff : Z) (del_ok : bool),
+  gen_marker_age_ok cutoff None = true
+  /\ gen_marker_delete_attempted (gen_marker_age_ok cutoff None) = false
+  /\ gen_marker_protects (gen_marker_age_ok cutoff None) del_ok = true.
+Proof. exact marker_stat_failure_protects. Qed.
+Print Assumptions C07_marker_stat_failure_protects.
+
+(* The kernel fails closed in general: the ONLY way a listed marker's targets are not protected is a stat that ANSWERED
+   with a time older than the cutoff, followed by a delete of the marker that succeeded. *)
+Theorem C07_marker_kernel_fail_closed : forall (cutoff : Z) (st : option Z) (del_ok : bool),
+  gen_marker_protects (gen_marker_age_ok cutoff st) del_ok = false ->
+  exists t, st = Some t /\ t < cutoff /\ gen_marker_delete_attempted (gen_marker_age_ok cutoff st) = true /\ del_ok = true.
+Proof. exact marker_kernel_fail_closed. Qed.
+Print Assumptions C07_marker_kernel_fail_closed.
+
+(* The marker loop of the collector model (Model/GC.v markers_loop, over which C07_fail_closed / C07_marker_keep are proved)
+   IS the loop built from the regenerated kernel: one step = stat, name test, targets, delete iff the kernel says so,
+   targets added iff the kernel says so.  A change of the source's stat-failure branch, age test or delete-failure branch
+   changes Gen/GenGCMarker.v and this equation no longer holds. *)
+Theorem C07_marker_loop_regenerated : forall (tp : string) (cutoff : Z) (o : oracle) (mp : key) (r : list key) (g : gst) (prot : list key),
+  markers_loop tp cutoff o g (mp :: r) prot =
+  let (prot1, g1) := marker_step_gen tp cutoff o g mp prot in markers_loop tp cutoff o g1 r prot1.
+Proof. exact markers_loop_regenerated. Qed.
+Print Assumptions C07_marker_loop_regenerated.
+
+(* For EVERY fault oracle (any fault class at the stat, anything before and after) and every list of remaining markers: when
+   the stat of a listed marker is faulted, the marker is not deleted (the store after its turn is the store before) and
+   everything it denotes (payload path, or the name fallback) is in the protected set the loop returns. *)
+Theorem C07_marker_stat_fault_keeps_protection :
+  forall (tp : string) (cutoff : Z) (o : oracle) (g : gst) (mp : key) (r : list key) (prot : list key) (f : fault) (prot' : list key) (g' : gst),
+  o (g_calls g) = Some f ->
+  endswith INFLIGHT_SUFFIX (basename (normalize_path tp mp)) = true ->
+  markers_loop tp cutoff o g (mp :: r) prot = (prot', g') ->
+  exists T g1 g2,
+    do_stat o g (normalize_path tp mp) = (None, g1)
+    /\ marker_targets tp o g1 (normalize_path tp mp) (basename (normalize_path tp mp)) = (T, g2)
+    /\ g_store g2 = g_store g
+    /\ markers_loop tp cutoff o g2 r (T ++ prot)%list = (prot', g')
+    /\ (markers_wf (g_store g) -> incl T prot').
+Proof. exact marker_stat_fault_keeps_protection. Qed.
+Print Assumptions C07_marker_stat_fault_keeps_protection.
+
+(* non-vacuity: a store with a live transaction's marker (payload names the data file) whose stat -- storage call 0 -- fails
+   with each fault class: the data file is protected and the marker stays; without the fault and with an old marker that is
+   deleted, it is not. *)
+Definition mk_st : store :=
+  [("metadata/inflight/f1.parquet.inflight", mkObj 5 (CMarker (Some "data/f1.parquet"))); ("data/f1.parquet", mkObj 1 CData)].
+Definition mk_run (o : oracle) := markers_loop "/t" 100 o (mkG 0 mk_st []) ["metadata/inflight/f1.parquet.inflight"] [].
+Example C07_marker_stat_nonvacuous :
+  endswith INFLIGHT_SUFFIX (basename (normalize_path "/t" "metadata/inflight/f1.parquet.inflight")) = true
+  /\ (fst (mk_run (oracle_of [(0%nat, FRaise)])), map fst (g_store (snd (mk_run (oracle_of [(0%nat, FRaise)])))))
+       = (["data/f1.parquet"], ["metadata/inflight/f1.parquet.inflight"; "data/f1.parquet"])
+  /\ fst (mk_run (oracle_of [(0%nat, FRaiseX)])) = ["data/f1.parquet"]
+  /\ fst (mk_run (oracle_of [(0%nat, FBad)])) = ["data/f1.parquet"]
+  /\ (fst (mk_run no_faults), map fst (g_store (snd (mk_run no_faults)))) = ([], ["data/f1.parquet"])
+  /\ gen_marker_protects (gen_marker_age_ok 100 (Some 5)) true = false.
+Proof. repeat split; vm_compute; reflexivity. Qed.
+
+(* ---- a listing that fails BELOW the backend interface.  LocalStorageBackend.list_files has two places where a failure of the
+   operating system can be swallowed -- the guard in front of the walk and os.walk's treatment of directories it cannot scan;
+   both are REGENERATED from the source (translator/gen_locallist.py -> Gen/GenLocalList.v) as predicates over the failure's
+   class (absent = "the object is not there": FileNotFoundError / NotADirectoryError; otherwise EACCES, EIO, ESTALE, ...).
+   Model/LocalList.v local_list_outcome puts them together.  For every combination of failures: a listing that returns
+   without raising although something could not be looked at comes only from "not there" failures -- any other failure
+   propagates (to the collector: a raising listing call). *)
+Theorem C07_local_listing_fails_closed : forall (probe walk : option bool),
+  local_list_outcome probe walk = LShort -> probe = Some true \/ (probe = None /\ walk = Some true).
+Proof. exact local_listing_fails_closed. Qed.
+Print Assumptions C07_local_listing_fails_closed.
+
+(* ... and a marker listing that raises -- any exception class, for every fault oracle, whatever it does afterwards -- ends the
+   loading of the in-flight protection with "aborted" (the regenerated handler: catches Exception, raises
+   GarbageCollectionAborted) and leaves the store as it was. *)
+Theorem C07_marker_listing_raise_aborts : forall (tp : string) (timeout now : Z) (o : oracle) (g : gst) (f : fault),
+  o (g_calls g) = Some f -> f <> FBad ->
+  gen_marker_listing_failure_aborts = true
+  /\ fst (load_protection tp timeout now o g) = None
+  /\ g_store (snd (load_protection tp timeout now o g)) = g_store g.
+Proof. exact marker_listing_raise_aborts. Qed.
+Print Assumptions C07_marker_listing_raise_aborts.
+
+Example C07_local_listing_nonvacuous :
+  local_list_outcome (Some false) None = LRaise /\ local_list_outcome None (Some false) = LRaise
+  /\ local_list_outcome (Some true) None = LShort /\ local_list_outcome None None = LComplete
+  /\ fst (load_protection "/t" 10 100 (oracle_of [(0%nat, FRaise)]) (mkG 0 mk_st [])) = None.
+Proof. repeat split; vm_compute; reflexivity. Qed.
